@@ -20,11 +20,12 @@ ASSUMPTIONS = [
 REQUIRED = {
     "quick": {"comparisons": 20000, "class/first_event_of_execution_after_non_execution": 20,
               "class/emptied_side": 200, "class/market_order_at_top": 200, "class/step_without_event": 200,
-              "class/event_while_not_running": 500, "class/runner_comparisons": 2000, "class/halted_market_events": 1},
+              "class/event_while_not_running": 500, "class/runner_comparisons": 2000, "class/halted_market_events": 1,
+              "class/compared_across_storage_chunk": 40},
     "thorough": {"comparisons": 500000, "class/first_event_of_execution_after_non_execution": 500,
                  "class/emptied_side": 5000, "class/market_order_at_top": 5000, "class/step_without_event": 5000,
                  "class/event_while_not_running": 10000, "class/runner_comparisons": 50000,
-                 "class/halted_market_events": 20},
+                 "class/halted_market_events": 20, "class/compared_across_storage_chunk": 1000},
 }
 
 
@@ -33,6 +34,11 @@ def budget(tier):
 
 
 def gen_case(rng, tier, idx):
+    if idx % 12 == 3:
+        # long histories: the clock passes the 100-step storage chunks while orders rest, trade and expire
+        c = gen_history(rng, tier, {"long_lived": True, "ttl_menu": [None, 3, 40, 99, 100, 150], "max_levels": 3})
+        c["drive"] = "direct"
+        return c
     if idx % 12 == 7:
         c = gen_deep_cancel_history(rng, tier)
         c["drive"] = "direct"
@@ -271,6 +277,18 @@ class C08Monitor(BookTracker):
                     tt = max(0, t - 1)
                     sv = sum(ref.vol[: tt + 1])
                     chk("get_vwap(t-1)", mkt.get_vwap(tt), (sum(ref.turn[: tt + 1]) / sv) if sv else float("nan"), tol=True)
+                # scalar getters with an explicit time argument: now, the previous step, time 0 and a chunk boundary
+                for tq in sorted({t, max(0, t - 1), 0, (t // 100) * 100, max(0, (t // 100) * 100 - 1)}):
+                    chk("get_market_price(time)", mkt.get_market_price(tq), ref.mp[tq], tol=True)
+                    chk("get_mid_price(time)", mkt.get_mid_price(tq), ref.mid[tq], tol=True)
+                    chk("get_last_executed_price(time)", mkt.get_last_executed_price(tq), ref.last[tq])
+                    chk("get_executed_volume(time)", mkt.get_executed_volume(tq), ref.vol[tq])
+                    chk("get_executed_total_price(time)", mkt.get_executed_total_price(tq), ref.turn[tq], tol=True)
+                    chk("get_n_buy_order(time)", mkt.get_n_buy_order(tq), ref.nb[tq])
+                    chk("get_n_sell_order(time)", mkt.get_n_sell_order(tq), ref.ns[tq])
+                    chk("list-form(time)", mkt.get_market_prices([tq, t]), [ref.mp[tq], ref.mp[t]])
+                if t in (100, 101, 200, 201):
+                    res.count("class/compared_across_storage_chunk")
         except Exception as e:  # noqa
             bad.append({"getter": "(raised)", "observed": repr(e), "expected": "a value"})
         if not book.live or not book.side(True) or not book.side(False):
